@@ -267,6 +267,47 @@ pub struct Net {
     inner: Arc<Mutex<NetInner>>,
 }
 
+#[derive(Clone, Debug)]
+pub struct ConnEvent {
+    pub ord: u64,
+    pub t_us: u64,
+    /// "vsock-end" (the connection task is about to finish) or "vsock-drop"
+    pub kind: String,
+    pub remote: String,
+    pub id: u16,
+    pub state: String,
+    /// error with which the task ends ("none" for a clean end)
+    pub error: String,
+}
+
+thread_local! {
+    static CONN_EVENTS: std::cell::RefCell<Vec<ConnEvent>> = const { std::cell::RefCell::new(Vec::new()) };
+    static T0: Cell<Option<tokio::time::Instant>> = const { Cell::new(None) };
+}
+
+pub fn take_conn_events() -> Vec<ConnEvent> {
+    CONN_EVENTS.with(|c| std::mem::take(&mut *c.borrow_mut()))
+}
+
+fn install_observer() {
+    librqbit_utp::verif_hooks::set_observer(Some(Box::new(|ev: &str| {
+        let t_us = T0.with(|t| t.get()).map(|t0| (tokio::time::Instant::now() - t0).as_micros() as u64).unwrap_or(0);
+        let mut e = ConnEvent { ord: app::next_ord(), t_us, kind: String::new(), remote: String::new(), id: 0, state: String::new(), error: String::new() };
+        let mut it = ev.splitn(2, ' ');
+        e.kind = it.next().unwrap_or("").to_string();
+        let rest = it.next().unwrap_or("");
+        // key=value pairs; `error=` is last and may contain spaces
+        let (head, err) = match rest.find(" error=") { Some(i) => (&rest[..i], &rest[i + 7..]), None => (rest, "") };
+        e.error = err.to_string();
+        for kv in head.split(' ') {
+            if let Some((k, v)) = kv.split_once('=') {
+                match k { "remote" => e.remote = v.to_string(), "id" => e.id = v.parse().unwrap_or(0), "state" => e.state = v.to_string(), _ => {} }
+            }
+        }
+        CONN_EVENTS.with(|c| c.borrow_mut().push(e));
+    })));
+}
+
 thread_local! {
     /// set when the simulator detected a spin at one virtual instant
     pub static WEDGE: Cell<bool> = const { Cell::new(false) };
@@ -283,6 +324,9 @@ impl Net {
     pub fn new(plan: NetPlan, trace: bool) -> Net {
         let _ = take_wedge();
         app::reset_ord();
+        let _ = take_conn_events();
+        T0.with(|t| t.set(Some(tokio::time::Instant::now())));
+        install_observer();
         NOW_CALLS.with(|c| c.set((0, 0)));
         Net {
             inner: Arc::new(Mutex::new(NetInner {
